@@ -606,7 +606,9 @@ class _VersionIndependentUnmarshaller:
                 )
                 co_exceptiontable = self.r_object(bytes_for_s=bytes_for_s)
             else:
-                co_lnotab = self.r_object(bytes_for_s=bytes_for_s)
+                # The line table is binary data: never decode it as text
+                # (a Python 2 table can happen to be valid UTF-8).
+                co_lnotab = self.r_object(bytes_for_s=True)
         else:
             # < 1.5 there is no lnotab, so no firstlineno.
             # SET_LINENO is used instead.
